@@ -175,6 +175,29 @@ def reader_agreement(bdir, cd, img, summary):
         keep = lambda kv: {k: v for k, v in kv if k.startswith((b"user.", b"trusted."))}
         if with_x and t in ("file", "dir") and keep(sxa) != keep(xa):
             diffs.append("unpack: %r xattrs %r != %r" % (path, sxa, xa))
+    # unpack of a sub directory: its content must appear directly under the unpack root
+    subdirs = [p for p, v in summary.items() if v[0] == "dir" and p and b"\n" not in p and any(q.startswith(p + b"/") for q in summary)]
+    if subdirs:
+        sd = subdirs[0]
+        unp2 = os.path.join(cd, "unp2")
+        shutil.rmtree(unp2, ignore_errors=True)
+        os.makedirs(unp2)
+        rr = run_sim(os.path.join(bdir, "asan", "sim-rdsquashfs"), ["-q", "-u", "/" + os.fsdecode(sd), "-p", "unp2", "out.sqfs"], cwd=cd, timeout=120, cpu=60)
+        if rr.rc != 0:
+            diffs.append("unpack of sub directory %r failed: %s" % (sd, rr.stderr[-150:].decode(errors="replace")))
+        else:
+            snap2 = pipelines.snapshot_dir(unp2, False)
+            for path, v in summary.items():
+                if path.startswith(sd + b"/"):
+                    rel = path[len(sd) + 1:]
+                    if rel not in snap2:
+                        diffs.append("unpack of sub directory %r: %r missing" % (sd, rel))
+                        break
+                    if v[0] == "file" and snap2[rel][5] != hashlib.sha256(v[5]).hexdigest():
+                        diffs.append("unpack of sub directory %r: %r content differs" % (sd, rel))
+                        break
+                    n += 1
+        shutil.rmtree(unp2, ignore_errors=True)
     # cat of up to 4 files
     files = [p for p, v in summary.items() if v[0] == "file" and p and b"\n" not in p][:4]
     for p in files:
